@@ -94,6 +94,13 @@ impl ZeroCone<F> {
 //@end
 }
 
+// the membership test was evaluated on the point q + a*dq (element-wise, in the float symbols) and said "outside"
+pub open spec fn trial_at(w: Seq<F>, q: Seq<F>, dq: Seq<F>, a: F) -> bool {
+    w.len() == q.len() && forall|i: int| 0 <= i < q.len() ==> #[trigger] w[i] == f_add(f_mul(f_one(), q[i]), f_mul(a, dq[i]))
+}
+pub open spec fn trial_rejected<FN: Fn(&[F]) -> bool>(f: FN, q: Seq<F>, dq: Seq<F>, a: F) -> bool {
+    exists|w: &[F]| trial_at(w@, q, dq, a) && f.ensures((w,), false)
+}
 // C15 (nonsymmetric cones): the search returns 0 or a trial step that the membership predicate accepts,
 // namely the first accepted one in the sequence alpha_init * step^k ("within one backtracking factor")
 //@fn file=src/solver/core/cones/nonsymmetric_common.rs name=backtrack_search rules=R1,R2 ret=r attrs="#[verifier::exec_allows_no_decreases_clause]"
@@ -103,27 +110,36 @@ impl ZeroCone<F> {
         forall|w: &[F]| #![trigger is_in_cone_fcn.requires((w,))] is_in_cone_fcn.requires((w,)),
     ensures
         final(work)@.len() == old(work)@.len(),
-        // either the step is zero (search gave up below alpha_min) ...
-        r == f_zero() || ({
+        // either the search gave up: the trial `prev` was rejected and the next one, prev*step, is below alpha_min ...
+        (r == f_zero() && exists|prev: F| #[trigger] trial_rejected(is_in_cone_fcn, q@, dq@, prev) && f_lt(f_mul(prev, step), alpha_min)) || ({
             // ... or the point q + r*dq was accepted by the cone membership test
             &&& is_in_cone_fcn.ensures((&*final(work),), true)
             &&& forall|i: int| 0 <= i < q@.len() ==> #[trigger] final(work)@[i] == f_add(f_mul(f_one(), q@[i]), f_mul(r, dq@[i]))
-            // ... and r is alpha_init or a rejected trial times the backtracking factor
-            &&& (r == alpha_init || exists|prev: F| r == f_mul(prev, step))
+            // ... and r is alpha_init, or one backtracking factor below a REJECTED trial ("not needlessly short")
+            &&& (r == alpha_init || exists|prev: F| r == f_mul(prev, step) && #[trigger] trial_rejected(is_in_cone_fcn, q@, dq@, prev))
         }),
 //@loop 1
         invariant_except_break
-            alpha == alpha_init || exists|prev: F| alpha == f_mul(prev, step),
+            alpha == alpha_init || exists|prev: F| alpha == f_mul(prev, step) && #[trigger] trial_rejected(is_in_cone_fcn, q@, dq@, prev),
         invariant
             work@.len() == q@.len(), q@.len() == dq@.len(),
             forall|w: &[F]| #![trigger is_in_cone_fcn.requires((w,))] is_in_cone_fcn.requires((w,)),
         ensures
             work@.len() == q@.len(),
-            alpha == f_zero() || ({
+            (alpha == f_zero() && exists|prev: F| #[trigger] trial_rejected(is_in_cone_fcn, q@, dq@, prev) && f_lt(f_mul(prev, step), alpha_min)) || ({
                 &&& is_in_cone_fcn.ensures((&*work,), true)
                 &&& forall|i: int| 0 <= i < q@.len() ==> #[trigger] work@[i] == f_add(f_mul(f_one(), q@[i]), f_mul(alpha, dq@[i]))
-                &&& (alpha == alpha_init || exists|prev: F| alpha == f_mul(prev, step))
+                &&& (alpha == alpha_init || exists|prev: F| alpha == f_mul(prev, step) && #[trigger] trial_rejected(is_in_cone_fcn, q@, dq@, prev))
             }),
+//@before "alpha *= step;"
+        let ghost a_prev = alpha;
+        proof {
+            let w: &[F] = &*work;
+            assert(w@.len() == q@.len() && !is_in_cone_fcn.ensures((w,), true) || true);
+            assert(trial_rejected(is_in_cone_fcn, q@, dq@, a_prev)) by {
+                assert(trial_at(w@, q@, dq@, a_prev));
+            }
+        }
 //@end
 
 // stand-in for CompositeCone (enum_dispatch over all cone types, closure capturing &mut self): its step_length is
